@@ -107,6 +107,9 @@ def orient_case(draw):
     for s in shells:
         if s["l"] >= 3:
             s["exps"] = [min(5.0, max(0.2, e)) for e in s["exps"]]
+    from vf.props import c04
+    f = max(s["l"] for s in shells) >= 3
+    shells = draw(c04.same_contraction(shells, 0.2 if f else 0.1, 5.0 if f else 10.0))
     env = draw(env_st([s["coord"] for s in shells], nmax_pts=3))
     return {"shells": shells, "env": env}
 
@@ -139,6 +142,8 @@ def judge_orient(case):
     shells = case["shells"]
     env = case["env"]
     v = Verdict(nontrivial=len({s["l"] for s in shells[:2]}) == 2, classes=["l%d-l%d" % (shells[0]["l"], shells[1]["l"])])
+    if shells[0].get("same_contraction"):
+        v.classes.append("same-contraction")
     sl = [mk_shell(s) for s in shells]
     for name, arity, call in KERNELS:
         if arity != 2:
